@@ -37,6 +37,9 @@ func (w *Worker) lookupIntrinsic(fn *ssa.Function) intrFn {
 	if h, ok := reflStubs[name]; ok {
 		return h
 	}
+	if h, ok := fmtStubs[name]; ok {
+		return h
+	}
 	if o.Pkg != nil {
 		switch o.Pkg.Pkg.Path() {
 		case "fmt":
